@@ -900,7 +900,8 @@ def run(ck: common.Check, replay=None):
         else:
             witness[wmap[c.name]] = {"status": st, **{a: b for a, b in info.items() if a != "log"}}
         common._cleanup_v(c.path)
-    for k, idxs in sorted(undocumented.items()):
+    # numbers lost / reinterpreted first, truthiness (-> bool) last: only the first 25 findings get a replay file
+    for k, idxs in sorted(undocumented.items(), key=lambda kv: (cells[kv[1][0]]["tgt"][0] == "Bool", kv[0])):
         i = idxs[0]
         c = cells[i]
         import re as _re
